@@ -247,6 +247,22 @@ func (m *C14Mon) OnBlock(blk *hist.Block) []Finding {
 	finalisedConfig := 0
 	for id := range ids {
 		pp, cp := prev[id], cur[id]
+		if pp != nil && cp != nil && phase(pp) == "voting" {
+			// once voting has begun, its deadline stands and a recorded opinion stays recorded
+			if phase(cp) == "voting" && cp.VotingDeadline != pp.VotingDeadline {
+				out = append(out, Finding{"C14", "C14/voting/deadline-moved", fmt.Sprintf("block %d: proposal %s is being voted on and its voting deadline moved from %d to %d", blk.H, id[:10], pp.VotingDeadline, cp.VotingDeadline)})
+			}
+			now := map[string]voteRec{}
+			for _, v := range votesOf(blk.Cur, id) {
+				now[v.Validator] = v
+			}
+			for _, v := range votesOf(blk.Prev, id) {
+				if n, ok := now[v.Validator]; v.Opinion != 0 && ok && n.Opinion != v.Opinion {
+					out = append(out, Finding{"C14", "C14/voting/recorded-opinion-changed", fmt.Sprintf("block %d: proposal %s: the recorded opinion %d of validator %s reads %d now", blk.H, id[:10], v.Opinion, v.Validator, n.Opinion)})
+					break
+				}
+			}
+		}
 		if cp == nil {
 			out = append(out, Finding{"C14", "C14/lifecycle/record-vanished", fmt.Sprintf("block %d: proposal %s has no record any more", blk.H, id[:10])})
 			continue
